@@ -17,6 +17,7 @@ func init() {
 }
 
 func runC14(c *Ctx) {
+	defer checkStoreKeyed(c, "C14.R7", storeRow{meth: "CreateOpenIDConnectSession", table: "IDSessions", op: "create", key: 2}, storeRow{meth: "GetOpenIDConnectSession", table: "IDSessions", op: "get", key: 2}, storeRow{meth: "DeleteOpenIDConnectSession", table: "IDSessions", op: "delete", key: 2})
 	c14R1(c)
 	c14Generate(c)
 	c14Hashes(c)
